@@ -20,10 +20,41 @@ theorem converters_total :
 theorem widths_positive :
     (Generated.classes.all fun (_, fs) => fs.all fun f => decide (0 < f.width)) = true := by decide +kernel
 
+theorem lookup_mem {α β : Type} [BEq α] [LawfulBEq α] (l : List (α × β)) (a : α) (b : β)
+    (h : l.lookup a = some b) : (a, b) ∈ l := by
+  induction l with
+  | nil => simp at h
+  | cons p l ih =>
+    obtain ⟨k, v⟩ := p
+    simp only [List.lookup_cons] at h
+    split at h
+    · rename_i heq
+      cases h
+      have := eq_of_beq heq
+      subst this
+      exact List.mem_cons_self
+    · exact List.mem_cons_of_mem _ (ih h)
+
+theorem offsetsFrom_mem (o : Nat) (fs : List Field) (i : Nat) (f : Field) (o' : Nat)
+    (h : (offsetsFrom o fs)[i]? = some (f, o')) : f ∈ fs := by
+  induction fs generalizing o i with
+  | nil => simp [offsetsFrom] at h
+  | cons g fs ih =>
+    cases i with
+    | zero =>
+      simp only [offsetsFrom, List.getElem?_cons_zero, Option.some.injEq, Prod.mk.injEq] at h
+      rw [← h.1]; exact List.mem_cons_self
+    | succ i =>
+      simp only [offsetsFrom, List.getElem?_cons_succ] at h
+      exact List.mem_cons_of_mem _ (ih _ _ h)
+
 /-- **Decoding never fails**: for every concrete class, every bit string of every length. -/
 theorem C11_total (cls : String) (fs : List Field) (h : Generated.classes.lookup cls = some fs)
     (bits : Bits) : ∃ kv, seqDecode env bits 0 fs = .ok kv ∧ kv.map (·.1) = fs.map (·.name) := by
-  sorry
+  have hc := List.all_eq_true.mp converters_total _ (lookup_mem _ _ _ h)
+  simp only at hc
+  obtain ⟨kv, hkv⟩ := seqDecode_total env fs hc bits 0
+  exact ⟨kv, hkv, seqDecode_names env fs bits 0 kv hkv⟩
 
 /-- **Covered fields keep their value**: a field that lies completely within the first `L` bits has
 in the truncated message exactly the value it has in the untruncated one. -/
@@ -34,7 +65,11 @@ theorem C11_covered (cls : String) (fs : List Field) (h : Generated.classes.look
     (i : Nat) (f : Field) (o : Nat) (hi : (offsetsFrom 0 fs)[i]? = some (f, o))
     (hcov : o + f.width ≤ L) :
     kvPre[i]? = kvFull[i]? := by
-  sorry
+  have hc := List.all_eq_true.mp widths_positive _ (lookup_mem _ _ _ h)
+  simp only at hc
+  have hw := List.all_eq_true.mp hc f (offsetsFrom_mem _ _ _ _ _ hi)
+  simp only [decide_eq_true_eq] at hw
+  exact seqDecode_covered env fs bits L hL kvFull kvPre hfull hpre i f o hi hw hcov
 
 /-- **Fields beyond the end are `None`.** -/
 theorem C11_absent (cls : String) (fs : List Field) (_h : Generated.classes.lookup cls = some fs)
@@ -43,7 +78,9 @@ theorem C11_absent (cls : String) (fs : List Field) (_h : Generated.classes.look
     (i : Nat) (f : Field) (o : Nat) (hi : (offsetsFrom 0 fs)[i]? = some (f, o))
     (habs : L ≤ o) :
     kvPre[i]? = some (f.name, .none) := by
-  sorry
+  refine seqDecode_absent env fs (bits.take L) kvPre hpre i f o hi ?_
+  simp only [List.length_take]
+  omega
 
 /-- the dispatch trees of the source read no bit beyond 140 (22) resp. 40 (24, 25, 26) -/
 theorem trees_bits :
@@ -54,7 +91,19 @@ theorem trees_bits :
 theorem C11_variant (c : String) (bits : Bits) (L : Nat)
     (hL : (if c = "MessageType22" then 140 else 40) ≤ L) :
     resolveDecode env c (bits.take L) = resolveDecode env c bits := by
-  sorry
+  unfold resolveDecode
+  show (match Generated.decodeTrees.lookup c with
+      | some tr => tr.run (fun t => .ok (t.evalBits (bits.take L)))
+      | Option.none => .ok c) =
+    (match Generated.decodeTrees.lookup c with
+      | some tr => tr.run (fun t => .ok (t.evalBits bits))
+      | Option.none => .ok c)
+  cases hl : Generated.decodeTrees.lookup c with
+  | none => rfl
+  | some tr =>
+    have hb := List.all_eq_true.mp trees_bits _ (lookup_mem _ _ _ hl)
+    simp only [decide_eq_true_eq] at hb
+    exact treeRun_take tr bits L (Nat.le_trans hb hL)
 
 /-- non-vacuity: type 1 has a field (`radio`, index 15) at offset 149, cut off by a 140-bit prefix -/
 example : (offsetsFrom 0 Generated.T_MessageType1)[15]?.map (fun p => (p.1.name, p.2)) = some ("radio", 149) := by
